@@ -54,7 +54,7 @@ func genC19(rt *rapid.T) *Request {
 	if rq.HTTP {
 		p.NumStyle = oneOf(rt, "num_style", "", "", "zeros", "plus")
 	}
-	form := oneOf(rt, "target_form", "v4", "v4", "v6", "v6br", "v4port", "v6brport")
+	form := oneOf(rt, "target_form", "v4", "v4", "v6", "v6br", "v4port", "v6brport", "name", "nameport")
 	sackLike := strings.TrimSpace(strings.ToLower(p.Protocol)) == "tcp" && (p.TCPMethod == "sack" || p.TCPMethod == "prefer_sack")
 	if sackLike && form != "v6" && form != "v6br" && form != "v6brport" {
 		// SACK really connects: only a loopback listener owned by the harness is reachable
@@ -69,6 +69,20 @@ func genC19(rt *rapid.T) *Request {
 			p.Hostname = "2001:db8:ffff::1"
 		case "v6br":
 			p.Hostname = "[2001:db8:ffff::1]"
+		case "name", "nameport":
+			// a host name with A and / or AAAA records (the resolver's answer order is its own business: the family
+			// that was asked for decides)
+			rq.Hosts = map[string][]string{
+				"dual.verif.test":  {"2001:db8:ffff::1", "93.184.216.34"},
+				"dual4.verif.test": {"93.184.216.34", "203.0.113.9", "2001:db8:ffff::1"},
+				"only4.verif.test": {"8.8.8.8"},
+				"only6.verif.test": {"2606:4700:4700::1111"},
+				"empty.verif.test": {},
+			}
+			p.Hostname = oneOf(rt, "host_name", "dual.verif.test", "dual.verif.test", "dual4.verif.test", "only4.verif.test", "only6.verif.test", "empty.verif.test", "nosuch.verif.test")
+			if form == "nameport" {
+				p.Hostname = fmt.Sprintf("%s:%d", p.Hostname, oneOf(rt, "hostport_n", 1, 8080, 65535))
+			}
 		case "v4port":
 			p.Hostname = fmt.Sprintf("93.184.216.34:%d", oneOf(rt, "hostport", 0, 1, 8080, 65535, 65536, 70000))
 		case "v6brport":
@@ -183,13 +197,32 @@ func checkC19(t *testing.T, rq *Request, rec *Recorder) []Diff {
 	}
 	// executed: the wire must show exactly the requested range, endpoint and protocol
 	want, _ := netip.ParseAddr(addrStr)
+	var wantAny []netip.Addr // a target name: any of its addresses of the requested family
+	if addrs, isName := rq.Hosts[addrStr]; isName {
+		for _, a := range addrs {
+			if x := netip.MustParseAddr(a); x.Is6() == p.WantV6 {
+				wantAny = append(wantAny, x)
+			}
+		}
+		if len(wantAny) == 0 && nRuns > 0 {
+			add("accepted-unrepresentable", "request executed although the name %s has no %s address (it has %v)", addrStr, map[bool]string{true: "IPv6", false: "IPv4"}[p.WantV6], addrs)
+		}
+	}
 	full, single := 0, 0
 	outsideReported := false
 	for h, probes := range sinkProbes(o.Wire) {
 		seen := map[int]int{}
 		for _, pr := range probes {
 			seen[int(pr.TTL)]++
-			if pr.IP.Dst != want.Unmap() {
+			if wantAny != nil {
+				ok := false
+				for _, x := range wantAny {
+					ok = ok || pr.IP.Dst == x
+				}
+				if !ok {
+					add("wrong-address", "sink %d probe to %s; the target name %s resolves to %v for the requested family (IPv6=%v)", h, pr.IP.Dst, addrStr, wantAny, p.WantV6)
+				}
+			} else if pr.IP.Dst != want.Unmap() {
 				add("wrong-address", "sink %d probe to %s, requested %s", h, pr.IP.Dst, addrStr)
 			}
 			switch p.Protocol {
